@@ -74,6 +74,8 @@ def family():
     F["ladder"] = (("l",), lambda o, N, Dg: N["l"] + N["l"] ** 2 / 11, {
         "x": lambda o, N, Dg: o["l"] + Dg(o["l"]),
         "x2": lambda o, N, Dg: o["l"] ** 2 + Dg(o["l"]) ** 2,
+        # sideband-dependent amplitude, sign sensitive: the ladder number operator takes negative values
+        "absx": lambda o, N, Dg: sympy.sqrt(N["l"] ** 2) * o["l"] + Dg(o["l"]) * sympy.sqrt(N["l"] ** 2),
     })
     F["holstein"] = (("a", "c", "d"), lambda o, N, Dg: N["a"] + R(5, 3) * N["c"] + R(7, 2) * N["d"] + N["a"] ** 2 / 10, {
         "nc_x": lambda o, N, Dg: N["c"] * (o["a"] + Dg(o["a"])),
